@@ -367,6 +367,19 @@ fn handle_established(
             }
         }
 
+        // A segment that occupies sequence space (payload, FIN, or a
+        // retransmitted SYN) but was not accepted above — a duplicate
+        // of something we already have, a segment past a gap, or data
+        // hitting a full buffer — still gets an ACK restating
+        // `rcv_nxt` and the current window (RFC 793: "if an incoming
+        // segment is not acceptable, an acknowledgment should be sent
+        // in reply"). Without it a peer whose ACK was lost keeps
+        // retransmitting into silence until it gives up. Pure ACKs
+        // never elicit a reply, so this cannot ping-pong.
+        if !s.payload.is_empty() || s.flags.fin || s.flags.syn {
+            send_ack = true;
+        }
+
         if wake_write {
             st.wake_write();
         }
